@@ -768,18 +768,219 @@ func parsePending() map[string]bool {
 	return m
 }
 
+// exec runs one op line (corpus / replay files); chan lines are consumed by setup
+func (e *env) exec(line string) {
+	f := strings.Fields(line)
+	n := func(i int) int { v, _ := strconv.Atoi(f[i]); return v }
+	n64 := func(i int) int64 { v, _ := strconv.ParseInt(f[i], 10, 64); return v }
+	switch {
+	case len(f) == 2 && f[0] == "meta":
+		e.meta(n(1))
+	case len(f) == 5 && f[0] == "fund":
+		e.fund(n(1), f[2], n(3), n64(4))
+	case len(f) == 8 && f[0] == "recv":
+		e.recv(n(1), f[2], f[3], n(4), n64(5), f[6], n(7))
+	case len(f) == 5 && f[0] == "send":
+		e.send(n(1), n(2), f[3], n64(4), true)
+	case len(f) == 5 && f[0] == "csend":
+		e.send(n(1), n(2), f[3], n64(4), false)
+	case len(f) == 4 && f[0] == "ack":
+		e.settle(n(1), uint64(n(2)), f[3])
+	case len(f) == 3 && f[0] == "timeout":
+		e.settle(n(1), uint64(n(2)), "timeout")
+	default:
+		e.out.Emit(line, "bad-op")
+	}
+}
+
+// runFile replays an op file: `# …` comment lines, an optional `reset`, three `chan l r` lines, then ops
+func runFile(t *testing.T, out *hx.Out, rng *rand.Rand, pending map[string]bool, path string) {
+	var lines []string
+	for _, l := range hx.ReadLines(path) {
+		l = strings.TrimSpace(l)
+		if l == "" || strings.HasPrefix(l, "#") || strings.HasPrefix(l, "reset") {
+			continue
+		}
+		lines = append(lines, l)
+	}
+	cps := []int{0, 1, 2}
+	rest := lines[:0:0]
+	for _, l := range lines {
+		f := strings.Fields(l)
+		if len(f) == 3 && f[0] == "chan" {
+			a, _ := strconv.Atoi(f[1])
+			b, _ := strconv.Atoi(f[2])
+			if a >= 0 && a < nChan {
+				cps[a] = b
+			}
+			continue
+		}
+		rest = append(rest, l)
+	}
+	e := newEnv(t, out, rng, pending)
+	out.Reset()
+	e.setup(cps)
+	for _, l := range rest {
+		e.exec(l)
+	}
+	e.finish()
+}
+
+func newEnv(t *testing.T, out *hx.Out, rng *rand.Rand, pending map[string]bool) *env {
+	return &env{s: hx.NewSuite(t, 1), rng: rng, out: out, signers: map[int]*helpers.Signer{}, addrs: map[int]common.Address{},
+		callers: map[common.Address]map[string]bool{}, derived: map[common.Address]string{}, pending: pending}
+}
+
+// end of history: every failed / timed-out EVM-originated aliased transfer refunded exactly once
+func (e *env) finish() {
+	for _, x := range e.sents {
+		if x.evm && x.tok == "A" && (x.done == "err" || x.done == "timeout") && x.refund != x.amt {
+			e.out.Violate(fmt.Sprintf("refund: total ERC-20 refund %d of a failed EVM-originated transfer of %d", x.refund, x.amt))
+		}
+		if x.evm && x.tok == "A" && x.done == "ok" && x.refund != 0 {
+			e.out.Violate("refund: successfully acknowledged transfer was refunded")
+		}
+	}
+}
+
+// honest counterparty: what it can still return of a coin of this chain on channel l
+func (e *env) avail(l int, tok string) int64 {
+	ch := e.chans[l]
+	a := e.bal(transfertypes.GetEscrowAddress(port, ch.id), bankDenom(tok, ch))
+	for _, x := range e.sents {
+		if x.l == l && x.tok == tok && x.done == "" {
+			a -= x.amt
+		}
+	}
+	return a
+}
+
+func (e *env) generate(nops int) {
+	rng, out := e.rng, e.out
+	memos := []string{"none", "junk", "callok", "callrev", "callok"}
+	for from := 1; from <= 3; from++ {
+		e.fund(from, "A", rng.Intn(nChan), int64(100+rng.Intn(900)))
+		e.fund(from, "A", rng.Intn(nChan), int64(100+rng.Intn(900)))
+		e.fund(from, "F", 0, int64(1000+rng.Intn(9000)))
+		e.fund(from, "N", 0, int64(500+rng.Intn(900)))
+		e.fund(from, "U", 0, int64(500+rng.Intn(900)))
+	}
+	if rng.Intn(3) == 0 {
+		e.meta(rng.Intn(nChan))
+	}
+	for j := 0; j < nops; j++ {
+		l := rng.Intn(nChan)
+		switch r := rng.Intn(20); {
+		case r < 6:
+			amt := int64(1 + rng.Intn(300))
+			if rng.Intn(8) == 0 {
+				amt = []int64{0, 1, 5000}[rng.Intn(3)]
+			}
+			from := 1 + rng.Intn(3)
+			if rng.Intn(5) < 2 {
+				tok := []string{"F", "N", "U", "N"}[rng.Intn(4)]
+				if rng.Intn(8) == 0 { // boundary: exactly the balance / one more
+					amt = e.bal(e.addr(from).Bytes(), bankDenom(tok, e.chans[l])) + int64(rng.Intn(2))
+				}
+				e.send(l, from, tok, amt, false)
+			} else {
+				tok := []string{"A", "A", "A", "A", "F", "F", "N"}[rng.Intn(7)]
+				if tok == "A" && rng.Intn(8) == 0 {
+					amt = e.ercOf(e.ercBase, e.addr(from)) + int64(rng.Intn(2))
+				}
+				if tok == "A" && rng.Intn(3) == 0 {
+					// a second transfer on another channel whose next sequence is the same: equal sequences in flight
+					for _, o := range e.chans {
+						so, _ := e.s.App.IBCKeeper.ChannelKeeper.GetNextSequenceSend(e.s.Ctx, port, o.id)
+						sl, _ := e.s.App.IBCKeeper.ChannelKeeper.GetNextSequenceSend(e.s.Ctx, port, e.chans[l].id)
+						if o.l != l && so == sl {
+							e.send(o.l, 1+rng.Intn(3), "A", int64(1+rng.Intn(200)), true)
+							break
+						}
+					}
+				}
+				e.send(l, from, tok, amt, true)
+			}
+		case r < 12:
+			rk := "hex"
+			if x := rng.Intn(12); x < 3 {
+				rk = "bech"
+			} else if x == 3 {
+				rk = "bad"
+			}
+			amt := int64(1 + rng.Intn(500))
+			if rng.Intn(10) == 0 {
+				amt = 0
+			}
+			tok := []string{"F", "N", "U", "V", "X", "A", "N", "V", "N", "U"}[rng.Intn(10)]
+			if tok == "F" || tok == "N" || tok == "U" {
+				// prefer a channel on which the counterparty holds some of the coin
+				for try := 0; try < 3 && e.avail(l, tok) <= 0; try++ {
+					l = rng.Intn(nChan)
+				}
+				avail := e.avail(l, tok)
+				switch {
+				case rng.Intn(14) == 0: // over-returning counterparty
+					amt = avail + 1 + int64(rng.Intn(50))
+					out.Count("recv:dishonest-counterparty")
+				case avail <= 0:
+					tok = []string{"V", "A", "X"}[rng.Intn(3)]
+				case amt > avail || rng.Intn(4) == 0:
+					amt = avail
+				}
+			}
+			e.recv(l, tok, rk, 1+rng.Intn(4), amt, memos[rng.Intn(len(memos))], rng.Intn(nSenders))
+		case r == 12 && !e.chans[l].meta && rng.Intn(3) == 0:
+			e.meta(l)
+		default:
+			// settle an in-flight packet; sometimes replay / duplicate an already settled or unknown one
+			var seq uint64 = uint64(1 + rng.Intn(6))
+			var open []*sent
+			for _, x := range e.sents {
+				if x.done == "" {
+					open = append(open, x)
+				}
+			}
+			switch {
+			case len(open) > 0 && rng.Intn(8) != 0:
+				x := open[rng.Intn(len(open))]
+				l, seq = x.l, x.seq
+			case len(e.sents) > 0 && rng.Intn(2) != 0:
+				x := e.sents[rng.Intn(len(e.sents))]
+				l, seq = x.l, x.seq
+			}
+			e.settle(l, seq, []string{"ok", "err", "timeout"}[rng.Intn(3)])
+			if rng.Intn(4) == 0 {
+				e.settle(l, seq, []string{"ok", "err", "timeout"}[rng.Intn(3)])
+			}
+		}
+	}
+	e.finish()
+}
+
 func TestC19(t *testing.T) {
 	seed := hx.Seed()
 	rng := rand.New(rand.NewSource(seed))
 	out := hx.NewOut()
-	defer out.Close("real middleware stack on three open channels whose local and counterparty ids are drawn independently (equal, crossed, two counterparties with the same id): recv x {FX, native coin with / without ERC-20 pair returning home, voucher with own pair, unregistered voucher, aliased voucher} x {hex, bech32, malformed} x {no memo, junk memo, memo call ok, memo call reverting} x amounts (0, 1, boundary of the escrow, random) x honest / over-returning counterparty; EVM-originated sends through the crossChain precompile (aliased ERC-20, FX, native ERC-20) and cosmos-side sends (FX, native coins); ack ok / ack error / timeout in random order with duplicates and replays, equal sequence numbers in flight on several channels. monitors: receiver's complete holdings change by exactly the amount in ERC-20 form or not at all; refund exactly once, to the sender, in the form the transfer started in; tracking record of exactly that (local channel, sequence) gone after success, failure, timeout and no other record touched; memo-call senders distinct per (local channel, original sender) and never a local account. non-trivial = distinct (op kind, token, receiver kind, memo, outcome)")
+	defer out.Close("real middleware stack on three open channels whose local and counterparty ids are drawn independently (equal, crossed, two counterparties with the same id): recv x {FX, native coin with / without ERC-20 pair returning home, voucher with own pair, unregistered voucher, aliased voucher} x {hex, bech32, malformed} x {no memo, junk memo, memo call ok, memo call reverting} x amounts (0, 1, boundary of the escrow, random) x honest / over-returning counterparty; EVM-originated sends through the crossChain precompile (aliased ERC-20, FX, native ERC-20) and cosmos-side sends (FX, native coins); ack ok / ack error / timeout in random order with duplicates and replays, equal sequence numbers in flight on several channels; corpus of hand-written scenarios first. monitors: receiver's complete holdings change by exactly the amount in ERC-20 form or not at all; refund exactly once, to the sender, in the form the transfer started in; tracking record of exactly that (local channel, sequence) gone after success, failure, timeout and no other record touched; memo-call senders distinct per (local channel, original sender) and never a local account. non-trivial = distinct (op kind, token, receiver kind, memo, outcome)")
 	pending := parsePending()
-	nseq := hx.N(14, 80)
-	topologies := [][]int{{1, 0, 2}, {0, 1, 2}, {1, 0, 1}, {1, 2, 0}, {5, 5, 7}}
+	if rf := hx.ReplayFile(); rf != "" {
+		runFile(t, out, rng, pending, rf)
+		return
+	}
+	if dir := os.Getenv("VERIF_CORPUS"); dir != "" {
+		ents, _ := os.ReadDir(dir)
+		for _, en := range ents {
+			if strings.HasSuffix(en.Name(), ".ops") {
+				runFile(t, out, rng, pending, dir+"/"+en.Name())
+				out.Count("corpus-file")
+			}
+		}
+	}
+	nseq := hx.N(36, 120)
+	topologies := [][]int{{1, 0, 2}, {0, 1, 2}, {1, 0, 1}, {1, 2, 0}, {5, 5, 7}, {1, 1, 1}}
 	for i := 0; i < nseq; i++ {
-		s := hx.NewSuite(t, 1)
-		e := &env{s: s, rng: rng, out: out, signers: map[int]*helpers.Signer{}, addrs: map[int]common.Address{},
-			callers: map[common.Address]map[string]bool{}, derived: map[common.Address]string{}, pending: pending}
+		e := newEnv(t, out, rng, pending)
 		out.Reset()
 		cps := topologies[i%len(topologies)]
 		if rng.Intn(4) == 0 {
@@ -787,94 +988,6 @@ func TestC19(t *testing.T) {
 		}
 		e.setup(cps)
 		out.Count(fmt.Sprintf("topology:%v", cps))
-		memos := []string{"none", "junk", "callok", "callrev"}
-		for from := 1; from <= 3; from++ {
-			e.fund(from, "A", rng.Intn(nChan), int64(100+rng.Intn(900)))
-			e.fund(from, "A", rng.Intn(nChan), int64(100+rng.Intn(900)))
-			e.fund(from, "F", 0, int64(1000+rng.Intn(9000)))
-			e.fund(from, []string{"N", "U"}[rng.Intn(2)], 0, int64(100+rng.Intn(900)))
-		}
-		if rng.Intn(3) == 0 {
-			e.meta(rng.Intn(nChan))
-		}
-		nops := hx.N(45, 120)
-		for j := 0; j < nops; j++ {
-			l := rng.Intn(nChan)
-			switch r := rng.Intn(20); {
-			case r < 6:
-				amt := int64(1 + rng.Intn(300))
-				if rng.Intn(8) == 0 {
-					amt = []int64{0, 1, 5000}[rng.Intn(3)]
-				}
-				from := 1 + rng.Intn(3)
-				if rng.Intn(3) == 0 {
-					tok := []string{"F", "N", "U"}[rng.Intn(3)]
-					if rng.Intn(6) == 0 { // boundary: exactly the balance / one more
-						amt = e.bal(e.addr(from).Bytes(), bankDenom(tok, e.chans[l])) + int64(rng.Intn(2))
-					}
-					e.send(l, from, tok, amt, false)
-				} else {
-					tok := []string{"A", "A", "A", "F", "N"}[rng.Intn(5)]
-					if tok == "A" && rng.Intn(6) == 0 {
-						amt = e.ercOf(e.ercBase, e.addr(from)) + int64(rng.Intn(2))
-					}
-					e.send(l, from, tok, amt, true)
-				}
-			case r < 12:
-				rk := "hex"
-				if x := rng.Intn(12); x < 3 {
-					rk = "bech"
-				} else if x == 3 {
-					rk = "bad"
-				}
-				amt := int64(1 + rng.Intn(500))
-				if rng.Intn(10) == 0 {
-					amt = 0
-				}
-				tok := []string{"F", "N", "U", "V", "X", "A", "N", "V"}[rng.Intn(8)]
-				if tok == "F" || tok == "N" || tok == "U" {
-					// an honest counterparty can only return what it received: escrow minus what is still in flight outbound
-					ch := e.chans[l]
-					avail := e.bal(transfertypes.GetEscrowAddress(port, ch.id), bankDenom(tok, ch))
-					for _, x := range e.sents {
-						if x.l == l && x.tok == tok && x.done == "" {
-							avail -= x.amt
-						}
-					}
-					switch {
-					case rng.Intn(12) == 0: // over-returning counterparty
-						amt = avail + 1 + int64(rng.Intn(50))
-						out.Count("recv:dishonest-counterparty")
-					case avail <= 0:
-						tok = []string{"V", "A", "X"}[rng.Intn(3)]
-					case amt > avail || rng.Intn(4) == 0:
-						amt = avail
-					}
-				}
-				e.recv(l, tok, rk, 1+rng.Intn(4), amt, memos[rng.Intn(4)], rng.Intn(nSenders))
-			case r == 12 && !e.chans[l].meta && rng.Intn(3) == 0:
-				e.meta(l)
-			default:
-				// settle an in-flight packet, or replay / duplicate an already settled or unknown one
-				var seq uint64 = uint64(1 + rng.Intn(6))
-				if len(e.sents) > 0 && rng.Intn(5) != 0 {
-					x := e.sents[rng.Intn(len(e.sents))]
-					l, seq = x.l, x.seq
-				}
-				e.settle(l, seq, []string{"ok", "err", "timeout"}[rng.Intn(3)])
-				if rng.Intn(3) == 0 {
-					e.settle(l, seq, []string{"ok", "err", "timeout"}[rng.Intn(3)])
-				}
-			}
-		}
-		// end of history: every failed / timed-out EVM-originated aliased transfer refunded exactly once
-		for _, x := range e.sents {
-			if x.evm && x.tok == "A" && (x.done == "err" || x.done == "timeout") && x.refund != x.amt {
-				out.Violate(fmt.Sprintf("refund: total ERC-20 refund %d of a failed EVM-originated transfer of %d", x.refund, x.amt))
-			}
-			if x.evm && x.tok == "A" && x.done == "ok" && x.refund != 0 {
-				out.Violate("refund: successfully acknowledged transfer was refunded")
-			}
-		}
+		e.generate(hx.N(60, 140))
 	}
 }
